@@ -1,15 +1,961 @@
-//! C20 harness (stub).
+//! C20: C API calls report failures through the error channel and never abort.
+//!
+//! Modes
+//!   gen --seed S --tier T     request lines
+//!   exec                      answers request lines; every `call …` line runs ONE exported function in a
+//!                             CHILD process (this binary re-executed in `child` mode) so that an abort is
+//!                             observed instead of suffered; the steps of a `case … seq` run in one child
+//!                             (`seqchild` mode) that lives as long as the case
+//!   child <fn> <cls> <seed>   one in-contract call, prints `ret <same|diff|-> code=<c> msg=<0|1> cleared=<c>`
+//!   seqchild                  reads step names on stdin, prints the last error code after each step
+//!   dump                      `kind <Variant> <code>` for one constructed value of every SourmashError
+//!                             variant and `scenario <fn> <cls>` for every call scenario (translator input)
+use std::ffi::CString;
+use std::io::{BufRead, BufReader, Read, Write};
+use std::os::raw::c_char;
+use std::os::unix::process::ExitStatusExt;
+use std::process::{Child, ChildStdin, ChildStdout, Command, Stdio};
+use std::ptr;
+
+use sourmash::cmd::ComputeParameters;
+use sourmash::errors::{SourmashError, SourmashErrorCode};
+use sourmash::ffi::cmd::compute::*;
+use sourmash::ffi::hyperloglog::*;
+use sourmash::ffi::index::revindex::*;
+use sourmash::ffi::index::*;
+use sourmash::ffi::minhash::*;
+use sourmash::ffi::nodegraph::*;
+use sourmash::ffi::signature::*;
+use sourmash::ffi::storage::*;
+use sourmash::ffi::utils::*;
+use sourmash::ffi::{hash_murmur, HashFunctions as FHF};
+use sourmash::prelude::*;
+use sourmash::signature::{Signature, SigsTrait};
+use sourmash::sketch::hyperloglog::HyperLogLog;
+use sourmash::sketch::minhash::KmerMinHash;
+use sourmash::sketch::nodegraph::Nodegraph;
+use sourmash::sketch::Sketch;
+use sourmash::storage::ZipStorage;
 use verif_harness::*;
 
-fn gen(_a: &Args) {
-    let mut o = Out::new();
-    o.case("stub");
+const TD: &str = "/repo/tests/test-data";
+
+// ------------------------------------------------------------------------------------------------
+// scenario table: (function, argument class, has a native comparison)
+// Every function declared in include/sourmash.h appears at least once (theorem
+// `harness_covers_header` over the translator's copy of this table).
+// ------------------------------------------------------------------------------------------------
+
+/// classes shared by the binary KmerMinHash operations
+const MH_BIN: &[&str] = &[
+    "compat",
+    "empty",
+    "self_abund",
+    "mismatch_ksize",
+    "mismatch_moltype",
+    "mismatch_scaled",
+    "mismatch_seed",
+    "num_vs_scaled",
+];
+
+fn scenarios() -> Vec<(String, String, bool)> {
+    let mut v: Vec<(String, String, bool)> = vec![];
+    let mut add = |f: &str, cls: &[&str], cmp: bool| {
+        for c in cls {
+            v.push((f.to_string(), c.to_string(), cmp));
+        }
+    };
+    // ---- compute parameters
+    add("computeparams_new", &["default"], true);
+    add("computeparams_free", &["valid", "null"], false);
+    for g in [
+        "computeparams_dayhoff",
+        "computeparams_dna",
+        "computeparams_hp",
+        "computeparams_protein",
+        "computeparams_track_abundance",
+        "computeparams_num_hashes",
+        "computeparams_scaled",
+        "computeparams_seed",
+    ] {
+        add(g, &["default", "set"], true);
+    }
+    for s in [
+        "computeparams_set_dayhoff",
+        "computeparams_set_dna",
+        "computeparams_set_hp",
+        "computeparams_set_protein",
+        "computeparams_set_track_abundance",
+        "computeparams_set_num_hashes",
+        "computeparams_set_scaled",
+        "computeparams_set_seed",
+    ] {
+        add(s, &["valid", "zero", "max"], true);
+    }
+    add("computeparams_ksizes", &["default", "empty"], true);
+    add("computeparams_ksizes_free", &["valid", "empty", "null"], false);
+    add("computeparams_set_ksizes", &["valid", "empty", "zero_k"], true);
+    // ---- hashing helpers
+    add("hash_murmur", &["valid", "empty", "non_acgt"], true);
+    add("sourmash_aa_to_dayhoff", &["valid", "unknown"], true);
+    add("sourmash_aa_to_hp", &["valid", "unknown"], true);
+    add("sourmash_translate_codon", &["valid", "len1", "len2", "unknown3", "empty", "len5"], true);
+    // ---- error channel
+    add("sourmash_init", &["once", "twice"], false);
+    add("sourmash_err_clear", &["no_error", "after_error"], false);
+    add("sourmash_err_get_last_code", &["no_error", "after_error"], true);
+    add("sourmash_err_get_last_message", &["no_error", "after_error"], true);
+    add("sourmash_err_get_backtrace", &["no_error", "after_error"], true);
+    add("sourmash_str_from_cstr", &["valid", "empty", "bad_utf8"], true);
+    add("sourmash_str_free", &["owned", "borrowed", "null", "twice"], false);
+    // ---- HyperLogLog
+    add("hll_new", &["default"], true);
+    add("hll_free", &["valid", "default", "null"], false);
+    add("hll_with_error_rate", &["valid", "zero", "negative", "nan", "too_large", "too_small", "inf"], true);
+    add("hll_ksize", &["valid", "default"], true);
+    add("hll_cardinality", &["valid", "empty", "p4", "p18", "default"], true);
+    for f in ["hll_similarity", "hll_containment", "hll_intersection_size"] {
+        add(f, &["valid", "empty", "self", "mismatch_p", "mismatch_ksize", "default"], true);
+    }
+    add("hll_add_sequence", &["valid", "invalid", "invalid_force", "empty", "short", "default"], true);
+    add("hll_add_hash", &["valid", "zero", "max", "default"], true);
+    add("hll_merge", &["valid", "mismatch_ksize", "mismatch_p", "default"], true);
+    add("hll_update_mh", &["valid", "empty_mh", "default", "default_empty_mh"], true);
+    add("hll_matches", &["valid", "empty_mh", "default", "p4"], true);
+    add("hll_from_path", &["valid", "missing", "garbage", "directory", "bad_utf8"], true);
+    add("hll_from_buffer", &["valid", "gz", "empty", "garbage", "truncated"], true);
+    add("hll_save", &["valid", "missing_dir", "default"], true);
+    add("hll_to_buffer", &["valid", "default"], true);
+    // ---- KmerMinHash
+    add("kmerminhash_new", &["scaled", "num", "zero_zero", "k0", "abund", "protein", "dayhoff", "hp", "scaled_max"], true);
+    add("kmerminhash_free", &["valid", "null"], false);
+    add("kmerminhash_slice_free", &["valid", "empty", "null"], false);
+    add("kmerminhash_add_sequence", &["valid", "invalid", "invalid_force", "empty", "short", "protein_mh", "k0"], true);
+    add("kmerminhash_add_protein", &["valid", "dna_mh", "short", "empty", "non_aa", "dayhoff", "hp"], true);
+    add("kmerminhash_seq_to_hashes", &["valid", "invalid", "invalid_force", "force_zeroes", "empty", "protein", "short", "k0"], true);
+    add("kmerminhash_clear", &["valid", "empty", "abund"], true);
+    add("kmerminhash_add_hash", &["valid", "zero", "max", "above_max_hash", "num_full", "abund"], true);
+    add("kmerminhash_add_hash_with_abundance", &["valid", "zero_abund", "max_abund", "no_track", "repeat"], true);
+    add("kmerminhash_add_word", &["valid", "empty", "non_acgt"], true);
+    add("kmerminhash_remove_hash", &["present", "absent", "empty", "abund"], true);
+    add("kmerminhash_remove_many", &["valid", "absent", "empty_list", "abund"], true);
+    add("kmerminhash_get_mins", &["valid", "empty"], true);
+    add("kmerminhash_get_mins_size", &["valid", "empty"], true);
+    add("kmerminhash_get_abunds", &["valid", "empty", "no_track"], true);
+    add("kmerminhash_md5sum", &["valid", "empty"], true);
+    add("kmerminhash_add_many", &["valid", "empty_list", "dups"], true);
+    add("kmerminhash_set_abundances", &["valid", "clear", "no_track", "empty_list", "zero_abund"], true);
+    for g in [
+        "kmerminhash_is_protein",
+        "kmerminhash_dayhoff",
+        "kmerminhash_hp",
+        "kmerminhash_seed",
+        "kmerminhash_track_abundance",
+        "kmerminhash_num",
+        "kmerminhash_ksize",
+        "kmerminhash_max_hash",
+        "kmerminhash_hash_function",
+    ] {
+        add(g, &["dna", "protein", "dayhoff", "hp", "num", "abund"], true);
+    }
+    add("kmerminhash_disable_abundance", &["abund", "no_track"], true);
+    add("kmerminhash_enable_abundance", &["empty", "nonempty", "already"], true);
+    add("kmerminhash_hash_function_set", &["empty", "same", "nonempty"], true);
+    for f in [
+        "kmerminhash_merge",
+        "kmerminhash_is_compatible",
+        "kmerminhash_add_from",
+        "kmerminhash_remove_from",
+        "kmerminhash_intersection",
+        "kmerminhash_intersection_union_size",
+        "kmerminhash_jaccard",
+        "kmerminhash_angular_similarity",
+    ] {
+        add(f, MH_BIN, true);
+    }
+    add("kmerminhash_angular_similarity", &["abund_overflow"], true);
+    add("kmerminhash_count_common", MH_BIN, true);
+    add("kmerminhash_count_common", &["downsample", "downsample_num"], true);
+    add("kmerminhash_similarity", MH_BIN, true);
+    add("kmerminhash_similarity", &["downsample", "ignore_abund", "downsample_num"], true);
+    // ---- Nodegraph
+    add("nodegraph_new", &["default"], true);
+    add("nodegraph_free", &["valid", "default", "null"], false);
+    add("nodegraph_buffer_free", &["valid", "null"], false);
+    add("nodegraph_with_tables", &["valid", "one_table", "zero_tables", "size2", "size1", "size0"], true);
+    add("nodegraph_count", &["valid", "repeat", "default", "zero_len_table"], true);
+    add("nodegraph_get", &["present", "absent", "default", "zero_len_table"], true);
+    add("nodegraph_count_kmer", &["valid", "non_acgt", "lowercase", "empty", "default_non_acgt"], false);
+    add("nodegraph_get_kmer", &["valid", "non_acgt", "empty"], false);
+    add("nodegraph_expected_collisions", &["valid", "filled", "default", "zero_tables"], true);
+    add("nodegraph_ksize", &["valid", "default"], true);
+    add("nodegraph_hashsizes", &["valid", "default"], true);
+    add("nodegraph_ntables", &["valid", "default"], true);
+    add("nodegraph_noccupied", &["valid", "default"], true);
+    add("nodegraph_matches", &["valid", "empty_mh", "default", "zero_len_table"], true);
+    add("nodegraph_update", &["valid", "mismatch_tables", "mismatch_sizes", "default_into_valid", "valid_into_default", "self_sizes"], true);
+    add("nodegraph_update_mh", &["valid", "empty_mh", "default", "zero_len_table"], true);
+    add("nodegraph_from_path", &["valid", "missing", "garbage", "directory", "bad_utf8"], true);
+    add("nodegraph_from_buffer", &["valid", "gz", "empty", "garbage", "truncated", "zero_len_table"], true);
+    add("nodegraph_save", &["valid", "missing_dir", "default", "size32"], true);
+    add("nodegraph_to_buffer", &["raw", "gz1", "gz9", "default", "size32"], true);
+    // ---- Signature
+    add("signature_new", &["default"], true);
+    add("signature_free", &["valid", "null"], false);
+    add("signature_from_params", &["default", "protein", "all_moltypes", "no_ksizes", "no_moltypes", "k0", "scaled"], true);
+    add("signature_len", &["default", "params"], true);
+    add("signature_add_sequence", &["valid", "invalid", "invalid_force", "empty_sig", "empty_seq", "protein_sig"], true);
+    add("signature_add_protein", &["valid", "dna_sig", "empty_sig", "short"], true);
+    add("signature_set_name", &["valid", "empty", "bad_utf8"], true);
+    add("signature_set_filename", &["valid", "empty", "bad_utf8"], true);
+    add("signature_get_name", &["unset", "set"], true);
+    add("signature_get_filename", &["unset", "set"], true);
+    add("signature_get_license", &["default"], true);
+    add("signature_push_mh", &["valid", "twice"], true);
+    add("signature_set_mh", &["valid", "replace"], true);
+    add("signature_first_mh", &["valid", "empty_sig", "large_mh", "hll_sketch"], true);
+    add("signature_eq", &["equal", "different", "self", "empty"], true);
+    add("signature_save_json", &["valid", "empty_sig"], true);
+    add("signature_get_mhs", &["valid", "empty_sig"], true);
+    add("signatures_save_buffer", &["valid", "gz", "empty_list"], true);
+    add("signatures_load_path", &["valid", "select_k", "select_moltype", "bad_moltype", "missing", "garbage", "gz", "bad_utf8", "moltype_bad_utf8"], true);
+    add("signatures_load_buffer", &["valid", "select_k", "select_none", "bad_moltype", "empty", "garbage", "bad_molecule", "gz", "hll_sketch"], true);
+    // ---- ZipStorage
+    add("zipstorage_new", &["valid", "missing", "not_a_zip", "empty_path", "bad_utf8", "directory"], true);
+    add("zipstorage_free", &["valid", "null"], false);
+    add("zipstorage_load", &["valid", "missing_entry", "empty_path", "bad_utf8"], true);
+    add("zipstorage_list_sbts", &["sbt_zip", "sig_zip"], true);
+    add("zipstorage_filenames", &["sbt_zip", "sig_zip"], true);
+    add("zipstorage_set_subdir", &["valid", "empty", "bad_utf8"], true);
+    add("zipstorage_path", &["valid"], true);
+    add("zipstorage_subdir", &["unset", "set"], true);
+    // ---- RevIndex / search results
+    add("revindex_new_with_sigs", &["valid", "empty_sigs", "with_queries", "empty_queries", "queries_threshold0_mismatch", "template_mismatch"], true);
+    add("revindex_new_with_paths", &["valid", "missing", "empty_paths", "garbage", "with_queries"], true);
+    add("revindex_free", &["valid", "null"], false);
+    add("revindex_len", &["valid", "empty"], true);
+    add("revindex_scaled", &["valid", "empty"], true);
+    add("revindex_signatures", &["valid", "empty"], true);
+    add("revindex_search", &["valid", "empty_sig", "no_match", "containment", "mismatch_ksize", "large_mh"], true);
+    add("revindex_gather", &["valid", "empty_sig", "no_match", "mismatch_ksize", "large_mh", "threshold_big"], true);
+    add("searchresult_score", &["valid"], true);
+    add("searchresult_filename", &["valid"], true);
+    add("searchresult_signature", &["valid"], true);
+    add("searchresult_free", &["valid", "null"], false);
+    v
 }
 
-fn step(_: &mut (), ws: &[&str]) -> String {
+/// scenarios that abort the process on the tree as it is (kept in corpus/C20/aborts.ops, recorded in
+/// findings/C20.json; the random generator never emits them a second time)
+fn in_corpus_only(f: &str, cls: &str) -> bool {
+    let p = format!("/verif/corpus/C20/aborts.ops");
+    thread_local! { static SET: std::cell::RefCell<Option<std::collections::HashSet<(String, String)>>> = const { std::cell::RefCell::new(None) }; }
+    SET.with(|s| {
+        let mut s = s.borrow_mut();
+        if s.is_none() {
+            let mut set = std::collections::HashSet::new();
+            if let Ok(t) = std::fs::read_to_string(&p) {
+                for l in t.lines() {
+                    let w: Vec<&str> = l.split_whitespace().collect();
+                    if w.len() >= 3 && w[0] == "call" {
+                        set.insert((w[1].to_string(), w[2].to_string()));
+                    }
+                }
+            }
+            *s = Some(set);
+        }
+        s.as_ref().unwrap().contains(&(f.to_string(), cls.to_string()))
+    })
+}
+
+// ------------------------------------------------------------------------------------------------
+// sequences (T-channel): every step is a concrete call whose outcome is known from its arguments
+// ------------------------------------------------------------------------------------------------
+
+const SEQ_FAIL: &[&str] = &[
+    "merge_mismatch_ksize",
+    "merge_mismatch_moltype",
+    "merge_mismatch_scaled",
+    "merge_mismatch_seed",
+    "add_seq_invalid",
+    "hll_add_seq_invalid",
+    "sig_add_seq_invalid",
+    "translate_codon_len5",
+    "hash_function_set_nonempty",
+    "enable_abundance_nonempty",
+    "hll_bad_error_rate",
+    "hll_merge_mismatch_ksize",
+    "hll_merge_mismatch_p",
+    "angular_needs_abund",
+    "count_common_upsample",
+    "load_sigs_bad_json",
+    "str_from_cstr_bad_utf8",
+    "first_mh_empty_sig",
+    "ng_from_path_missing",
+    "zip_missing",
+    "ng_from_buffer_empty",
+];
+const SEQ_PANIC: &[&str] = &["get_abunds_no_track", "hll_update_mh_default", "load_sigs_bad_moltype", "ng_from_buffer_garbage"];
+const SEQ_OK: &[&str] = &[
+    "ok_add_hash",
+    "ok_merge",
+    "ok_get_mins",
+    "ok_md5sum",
+    "ok_add_seq",
+    "ok_add_seq_force",
+    "ok_is_compatible_false",
+    "ok_isect_union_mismatch",
+    "ok_hll_cardinality",
+    "ok_ng_count",
+    "ok_sig_json",
+    "ok_str_from_cstr",
+];
+const SEQ_QUERY: &[&str] = &["code", "msg", "backtrace"];
+
+fn gen(a: &Args) {
+    let mut r = Rng::new(a.seed);
+    let mut o = Out::new();
+    let thorough = a.tier == "thorough";
+    // ---- stream 1: error-channel histories
+    let nseq = if thorough { 4000 } else { 300 };
+    // fixed shapes first: every failing step alone, after init and without init
+    for (i, st) in SEQ_FAIL.iter().chain(SEQ_PANIC.iter()).enumerate() {
+        o.case(&format!("seq fixed{}", i));
+        if i % 2 == 0 {
+            o.op("init");
+        }
+        o.op("code");
+        o.op(st);
+        o.op("msg");
+        o.op("ok_add_hash");
+        o.op("ok_merge");
+        o.op("code");
+        o.op("init");
+        o.op(st);
+        o.op("clear");
+        o.op("msg");
+    }
+    for _ in 0..nseq {
+        o.case("seq");
+        // most histories start with sourmash_init (the precondition of T-channel); some do not
+        if !r.chance(1, 6) {
+            o.op("init");
+        }
+        let len = r.range(1, if thorough { 40 } else { 14 });
+        for _ in 0..len {
+            let k = r.below(100);
+            let st: &str = if k < 30 {
+                r.pick(SEQ_FAIL)
+            } else if k < 40 {
+                r.pick(SEQ_PANIC)
+            } else if k < 65 {
+                r.pick(SEQ_OK)
+            } else if k < 85 {
+                r.pick(SEQ_QUERY)
+            } else if k < 96 {
+                "clear"
+            } else {
+                "init"
+            };
+            o.op(st);
+        }
+    }
+    // ---- stream 2: one exported function per child
+    let reps = if thorough { 12 } else { 2 };
+    let sc = scenarios();
+    let mut cur = String::new();
+    for (f, cls, cmp) in &sc {
+        if in_corpus_only(f, cls) {
+            continue;
+        }
+        if *f != cur {
+            o.case(&format!("call {}", f));
+            cur = f.clone();
+        }
+        for i in 0..reps {
+            let seed = if i == 0 { 0 } else { r.bits(32) };
+            o.op(&format!("call {} {} {} {}", f, cls, if *cmp { "cmp" } else { "nocmp" }, seed));
+        }
+    }
+}
+
+// ------------------------------------------------------------------------------------------------
+// exec (parent)
+// ------------------------------------------------------------------------------------------------
+
+struct SeqChild {
+    child: Child,
+    stdin: ChildStdin,
+    stdout: BufReader<ChildStdout>,
+}
+#[derive(Default)]
+struct ExecState {
+    seq: Option<SeqChild>,
+    dead: bool,
+}
+impl Drop for ExecState {
+    fn drop(&mut self) {
+        if let Some(mut c) = self.seq.take() {
+            drop(c.stdin);
+            let _ = c.child.kill();
+            let _ = c.child.wait();
+        }
+    }
+}
+
+fn status_class(st: &std::process::ExitStatus) -> String {
+    match (st.signal(), st.code()) {
+        (Some(6), _) => "abort".into(),
+        (Some(s), _) => format!("crash sig={}", s),
+        (None, Some(c)) => format!("exit={}", c),
+        _ => "exit=?".into(),
+    }
+}
+
+fn run_call_child(f: &str, cls: &str, seed: &str) -> String {
+    let exe = std::env::current_exe().unwrap();
+    let mut child = Command::new(exe)
+        .args(["child", f, cls, seed])
+        .stdin(Stdio::null())
+        .stdout(Stdio::piped())
+        .stderr(Stdio::null())
+        .spawn()
+        .unwrap();
+    let mut out = String::new();
+    // bounded wait: a hang is reported, not suffered
+    let t0 = std::time::Instant::now();
+    let status = loop {
+        match child.try_wait().unwrap() {
+            Some(st) => break Some(st),
+            None => {
+                if t0.elapsed().as_secs() > 120 {
+                    let _ = child.kill();
+                    let _ = child.wait();
+                    break None;
+                }
+                std::thread::sleep(std::time::Duration::from_millis(1));
+            }
+        }
+    };
+    if let Some(mut so) = child.stdout.take() {
+        let _ = so.read_to_string(&mut out);
+    }
+    match status {
+        None => "timeout".into(),
+        Some(st) if st.success() => out.lines().last().unwrap_or("no-output").to_string(),
+        Some(st) => status_class(&st),
+    }
+}
+
+fn exec_step(st: &mut ExecState, ws: &[&str]) -> String {
     match ws[0] {
-        "case" => "ok".into(),
-        _ => "bad-op".into(),
+        "case" => {
+            if let Some(mut c) = st.seq.take() {
+                drop(c.stdin);
+                let _ = c.child.kill();
+                let _ = c.child.wait();
+            }
+            st.dead = false;
+            "ok".into()
+        }
+        "call" => run_call_child(ws[1], ws[2], ws.get(4).copied().unwrap_or("0")),
+        step => {
+            if st.dead {
+                return "dead".into();
+            }
+            if st.seq.is_none() {
+                let exe = std::env::current_exe().unwrap();
+                let mut child = Command::new(exe)
+                    .arg("seqchild")
+                    .stdin(Stdio::piped())
+                    .stdout(Stdio::piped())
+                    .stderr(Stdio::null())
+                    .spawn()
+                    .unwrap();
+                let stdin = child.stdin.take().unwrap();
+                let stdout = BufReader::new(child.stdout.take().unwrap());
+                st.seq = Some(SeqChild { child, stdin, stdout });
+            }
+            let c = st.seq.as_mut().unwrap();
+            let mut line = String::new();
+            let ok = writeln!(c.stdin, "{}", step).is_ok() && c.stdin.flush().is_ok();
+            if ok {
+                let _ = c.stdout.read_line(&mut line);
+            }
+            if line.is_empty() {
+                st.dead = true;
+                let status = c.child.wait().unwrap();
+                st.seq = None;
+                return status_class(&status);
+            }
+            line.trim_end().to_string()
+        }
+    }
+}
+
+// ------------------------------------------------------------------------------------------------
+// helpers shared by the children
+// ------------------------------------------------------------------------------------------------
+
+type MH = *mut SourmashKmerMinHash;
+type HLL = *mut SourmashHyperLogLog;
+type NG = *mut SourmashNodegraph;
+type SIG = *mut SourmashSignature;
+
+fn cs(s: &str) -> CString {
+    CString::new(s).unwrap()
+}
+fn csb(b: &[u8]) -> CString {
+    CString::new(b.to_vec()).unwrap()
+}
+fn hf(i: u32) -> FHF {
+    match i {
+        1 => FHF::Murmur64Dna,
+        2 => FHF::Murmur64Protein,
+        3 => FHF::Murmur64Dayhoff,
+        _ => FHF::Murmur64Hp,
+    }
+}
+fn nhf(i: u32) -> sourmash::encodings::HashFunctions {
+    use sourmash::encodings::HashFunctions::*;
+    match i {
+        1 => Murmur64Dna,
+        2 => Murmur64Protein,
+        3 => Murmur64Dayhoff,
+        _ => Murmur64Hp,
+    }
+}
+fn last_code() -> u32 {
+    unsafe { sourmash_err_get_last_code() as u32 }
+}
+fn dna(r: &mut Rng, n: usize) -> Vec<u8> {
+    (0..n).map(|_| *r.pick(b"ACGT")).collect()
+}
+fn prot(r: &mut Rng, n: usize) -> Vec<u8> {
+    (0..n).map(|_| *r.pick(b"ACDEFGHIKLMNPQRSTVWY")).collect()
+}
+fn hashes(r: &mut Rng, n: usize) -> Vec<u64> {
+    let mut v: Vec<u64> = (0..n).map(|_| r.bits(64).max(1)).collect();
+    v.sort();
+    v.dedup();
+    v
+}
+
+/// parameters of a sketch, used to build the same object through the C API and natively
+#[derive(Clone, Copy)]
+struct P {
+    scaled: u64,
+    k: u32,
+    hf: u32,
+    seed: u64,
+    track: bool,
+    num: u32,
+}
+const DNA21: P = P { scaled: 1, k: 21, hf: 1, seed: 42, track: false, num: 0 };
+unsafe fn mh_new(p: P) -> MH {
+    kmerminhash_new(p.scaled, p.k, hf(p.hf), p.seed, p.track, p.num)
+}
+fn mh_native(p: P) -> KmerMinHash {
+    KmerMinHash::new(p.scaled, p.k, nhf(p.hf), p.seed, p.track, p.num)
+}
+/// (through the C API, natively) with the same hashes
+unsafe fn mh_pair(p: P, hs: &[u64]) -> (MH, KmerMinHash) {
+    let m = mh_new(p);
+    let mut n = mh_native(p);
+    for h in hs {
+        kmerminhash_add_hash(m, *h);
+        n.add_hash(*h);
+    }
+    (m, n)
+}
+unsafe fn mh_eq(m: *const SourmashKmerMinHash, n: &KmerMinHash) -> bool {
+    let r = SourmashKmerMinHash::as_rust(m);
+    r == n && r.mins() == n.mins() && r.abunds() == n.abunds() && r.num() == n.num() && r.max_hash() == n.max_hash()
+        && r.ksize() == n.ksize() && r.seed() == n.seed() && r.hash_function() == n.hash_function()
+}
+unsafe fn take_slice<T: Clone>(p: *const T, n: usize) -> Vec<T> {
+    // ownership of a boxed slice handed over by the library
+    if p.is_null() {
+        return vec![];
+    }
+    let b = Box::from_raw(std::ptr::slice_from_raw_parts_mut(p as *mut T, n));
+    b.to_vec()
+}
+unsafe fn str_take(mut s: SourmashStr) -> String {
+    let v = if s.data.is_null() { String::new() } else { s.as_str().to_string() };
+    sourmash_str_free(&mut s);
+    std::mem::forget(s);
+    v
+}
+unsafe fn str_is_zero(s: SourmashStr) -> bool {
+    let z = s.data.is_null() && s.len == 0 && !s.owned;
+    std::mem::forget(s);
+    z
+}
+fn tmpdir() -> tempfile::TempDir {
+    std::fs::create_dir_all("/verif/.cache/run").ok();
+    tempfile::Builder::new().prefix("c20-").tempdir_in("/verif/.cache/run").unwrap()
+}
+
+fn bits(x: f64) -> u64 {
+    x.to_bits()
+}
+
+/// the 2nd operand of a binary KmerMinHash operation for an argument class; (first params, second params)
+fn bin_params(cls: &str) -> (P, P) {
+    let a = DNA21;
+    match cls {
+        "compat" | "empty" => (a, a),
+        "self_abund" => (P { track: true, ..a }, P { track: true, ..a }),
+        "mismatch_ksize" => (a, P { k: 31, ..a }),
+        "mismatch_moltype" => (a, P { hf: 2, ..a }),
+        "mismatch_scaled" => (a, P { scaled: 2, ..a }),
+        "mismatch_seed" => (a, P { seed: 43, ..a }),
+        "num_vs_scaled" => (P { scaled: 0, num: 500, ..a }, a),
+        "downsample" => (P { scaled: 2, ..a }, P { scaled: 4, ..a }),
+        "downsample_num" => (P { scaled: 0, num: 500, ..a }, P { scaled: 4, ..a }),
+        "ignore_abund" => (P { track: true, ..a }, P { track: true, ..a }),
+        "abund_overflow" => (P { track: true, ..a }, P { track: true, ..a }),
+        _ => (a, a),
+    }
+}
+
+// ------------------------------------------------------------------------------------------------
+// dump
+// ------------------------------------------------------------------------------------------------
+
+fn variant_name(e: &SourmashError) -> String {
+    format!("{:?}", e).chars().take_while(|c| c.is_alphanumeric() || *c == '_').collect()
+}
+
+fn take_last_error() -> Option<SourmashError> {
+    LAST_ERROR.with(|e| e.borrow_mut().take())
+}
+
+fn dump() {
+    use SourmashError as E;
+    let mut v: Vec<SourmashError> = vec![
+        E::Internal { message: "m".into() },
+        E::CannotUpsampleScaled,
+        E::MismatchNum { n1: 1, n2: 2 },
+        E::MismatchKSizes,
+        E::MismatchDNAProt,
+        E::MismatchScaled,
+        E::MismatchSeed,
+        E::MismatchSignatureType,
+        E::NeedsAbundanceTracking,
+        E::NoMinHashFound,
+        E::EmptySignature,
+        E::MultipleSketchesFound,
+        E::InvalidHashFunction { function: "f".into() },
+        E::NonEmptyMinHash { message: "m".into() },
+        E::InvalidDNA { message: "m".into() },
+        E::InvalidProt { message: "m".into() },
+        E::InvalidCodonLength { message: "m".into() },
+        E::HLLPrecisionBounds,
+        E::ANIEstimationError { message: "m".into() },
+        E::ReadDataError(sourmash::errors::ReadDataError::LoadError),
+        E::StorageError(sourmash::storage::StorageError::EmptyPathError),
+        E::SerdeError(serde_json::from_str::<u32>("x").unwrap_err()),
+        E::Utf8Error(std::str::from_utf8(&[0xffu8, 0xfe]).unwrap_err()),
+        E::IOError(std::io::Error::other("x")),
+        E::RocksDBError({
+            let mut o = rocksdb::Options::default();
+            o.create_if_missing(false);
+            rocksdb::DB::open(&o, "/verif/.cache/run/c20-no-such-db").err().expect("rocksdb error")
+        }),
+    ];
+    // kinds whose payload types are not nameable from here: obtained from the library itself
+    unsafe {
+        // niffler::Error
+        let p = cs("/verif/.cache/run/c20-no-such-file");
+        let _ = nodegraph_from_path(p.as_ptr());
+        match take_last_error() {
+            Some(e) => v.push(e),
+            None => panic!("no niffler error"),
+        }
+        // csv::Error
+        match sourmash::manifest::Manifest::from_reader(&b"a,b\n1,2,3\n"[..]) {
+            Err(e) => v.push(e),
+            Ok(_) => panic!("no csv error"),
+        }
+        // Panic (private constructor): what the hook stores
+        sourmash_init();
+        let _: u32 = landingpad(|| -> Result<u32, SourmashError> { panic!("dump") });
+        match take_last_error() {
+            Some(e) => v.push(e),
+            None => panic!("no panic error"),
+        }
+        let _ = std::panic::take_hook();
+    }
+    for e in &v {
+        println!("kind {} {}", variant_name(e), SourmashErrorCode::from_error(e) as u32);
+    }
+    for (f, c, _) in scenarios() {
+        println!("scenario {} {}", f, c);
+    }
+    for s in SEQ_FAIL.iter().chain(SEQ_PANIC).chain(SEQ_OK).chain(SEQ_QUERY) {
+        println!("seqstep {}", s);
+    }
+}
+
+// ------------------------------------------------------------------------------------------------
+// seqchild
+// ------------------------------------------------------------------------------------------------
+
+unsafe fn seq_step(name: &str) -> Option<String> {
+    let a = DNA21;
+    let hs = [3u64, 5, 8, 13];
+    let mut extra = String::new();
+    match name {
+        "init" => sourmash_init(),
+        "clear" => sourmash_err_clear(),
+        "code" => {}
+        "msg" => {
+            let m = str_take(sourmash_err_get_last_message());
+            extra = format!("msg={} ", if m.is_empty() { 0 } else { 1 });
+        }
+        "backtrace" => {
+            let m = str_take(sourmash_err_get_backtrace());
+            extra = format!("bt={} ", if m.is_empty() { 0 } else { 1 });
+        }
+        "merge_mismatch_ksize" | "merge_mismatch_moltype" | "merge_mismatch_scaled" | "merge_mismatch_seed" | "ok_merge" => {
+            let cls = if name == "ok_merge" { "compat" } else { &name[6..] };
+            let (pa, pb) = bin_params(cls);
+            let (x, _) = mh_pair(pa, &hs);
+            let (y, _) = mh_pair(pb, &[1, 2]);
+            kmerminhash_merge(x, y);
+            kmerminhash_free(x);
+            kmerminhash_free(y);
+        }
+        "add_seq_invalid" | "ok_add_seq" | "ok_add_seq_force" => {
+            let x = mh_new(a);
+            let s = if name == "ok_add_seq" { "ACGTACGTACGTACGTACGTACGTACGT" } else { "ACGTACGTACGTNCGTACGTACGTACGTACGT" };
+            let c = cs(s);
+            kmerminhash_add_sequence(x, c.as_ptr(), name == "ok_add_seq_force");
+            kmerminhash_free(x);
+        }
+        "hll_add_seq_invalid" => {
+            let h = hll_with_error_rate(0.05, 5);
+            let s = b"ACGTNACGTAC";
+            hll_add_sequence(h, s.as_ptr() as *const c_char, s.len(), false);
+            hll_free(h);
+        }
+        "sig_add_seq_invalid" => {
+            let cp = computeparams_new();
+            let s = signature_from_params(cp);
+            let c = cs("ACGTACGTACGTACGTACGTACGTNNNNNACGTACGTACGTACGTACGTACGTACGTACGTACGTACGTACGT");
+            signature_add_sequence(s, c.as_ptr(), false);
+            signature_free(s);
+            computeparams_free(cp);
+        }
+        "translate_codon_len5" => {
+            let c = cs("ACGTA");
+            sourmash_translate_codon(c.as_ptr());
+        }
+        "hash_function_set_nonempty" => {
+            let (x, _) = mh_pair(a, &hs);
+            kmerminhash_hash_function_set(x, hf(2));
+            kmerminhash_free(x);
+        }
+        "enable_abundance_nonempty" => {
+            let (x, _) = mh_pair(a, &hs);
+            kmerminhash_enable_abundance(x);
+            kmerminhash_free(x);
+        }
+        "hll_bad_error_rate" => {
+            let h = hll_with_error_rate(0.9, 21);
+            hll_free(h);
+        }
+        "hll_merge_mismatch_ksize" | "hll_merge_mismatch_p" => {
+            let h1 = hll_with_error_rate(0.05, 21);
+            let h2 = if name.ends_with("_p") { hll_with_error_rate(0.01, 21) } else { hll_with_error_rate(0.05, 31) };
+            hll_merge(h1, h2);
+            hll_free(h1);
+            hll_free(h2);
+        }
+        "angular_needs_abund" => {
+            let (x, _) = mh_pair(a, &hs);
+            let (y, _) = mh_pair(a, &hs);
+            kmerminhash_angular_similarity(x, y);
+            kmerminhash_free(x);
+            kmerminhash_free(y);
+        }
+        "count_common_upsample" => {
+            // a num sketch reports scaled 0: "downsampling" the scaled sketch to it is an upsample
+            let (x, _) = mh_pair(P { scaled: 0, num: 500, ..a }, &hs);
+            let (y, _) = mh_pair(P { scaled: 4, ..a }, &hs);
+            kmerminhash_count_common(y, x, true);
+            kmerminhash_free(x);
+            kmerminhash_free(y);
+        }
+        "load_sigs_bad_json" | "load_sigs_bad_moltype" => {
+            let buf: &[u8] = if name.ends_with("json") { b"{not json" } else { b"[]" };
+            let mol = cs("rna");
+            let mut n = 0usize;
+            let p = signatures_load_buffer(
+                buf.as_ptr() as *const c_char,
+                buf.len(),
+                false,
+                0,
+                if name.ends_with("json") { ptr::null() } else { mol.as_ptr() },
+                &mut n,
+            );
+            if !p.is_null() {
+                for s in take_slice(p as *const SIG, n) {
+                    signature_free(s);
+                }
+            }
+        }
+        "str_from_cstr_bad_utf8" | "ok_str_from_cstr" => {
+            let c = if name.starts_with("ok") { csb(b"hello") } else { csb(&[0xff, 0xfe, 0x41]) };
+            let s = sourmash_str_from_cstr(c.as_ptr());
+            // the returned string points into `c` although it is marked owned: not freed here
+            std::mem::forget(s);
+        }
+        "first_mh_empty_sig" => {
+            let s = signature_new();
+            let m = signature_first_mh(s);
+            if !m.is_null() {
+                kmerminhash_free(m);
+            }
+            signature_free(s);
+        }
+        "ng_from_path_missing" => {
+            let p = cs("/verif/.cache/run/c20-no-such-file");
+            let g = nodegraph_from_path(p.as_ptr());
+            if !g.is_null() {
+                nodegraph_free(g);
+            }
+        }
+        "zip_missing" => {
+            let p = b"/verif/.cache/run/c20-no-such-file.zip";
+            let z = zipstorage_new(p.as_ptr() as *const c_char, p.len());
+            if !z.is_null() {
+                zipstorage_free(z);
+            }
+        }
+        "ng_from_buffer_empty" | "ng_from_buffer_garbage" => {
+            let b: &[u8] = if name.ends_with("empty") { b"" } else { b"garbage-garbage-garbage-garbage-garbage" };
+            let p = if b.is_empty() { ptr::NonNull::<c_char>::dangling().as_ptr() as *const c_char } else { b.as_ptr() as *const c_char };
+            let g = nodegraph_from_buffer(p, b.len());
+            if !g.is_null() {
+                nodegraph_free(g);
+            }
+        }
+        "get_abunds_no_track" => {
+            let (x, _) = mh_pair(a, &hs);
+            let mut n = 0usize;
+            let p = kmerminhash_get_abunds(x, &mut n);
+            if !p.is_null() {
+                kmerminhash_slice_free(p as *mut u64, n);
+            }
+            kmerminhash_free(x);
+        }
+        "hll_update_mh_default" => {
+            let h = hll_new();
+            let (x, _) = mh_pair(a, &hs);
+            hll_update_mh(h, x);
+            hll_free(h);
+            kmerminhash_free(x);
+        }
+        "ok_add_hash" => {
+            let x = mh_new(a);
+            kmerminhash_add_hash(x, 7);
+            kmerminhash_free(x);
+        }
+        "ok_get_mins" => {
+            let (x, _) = mh_pair(a, &hs);
+            let mut n = 0usize;
+            let p = kmerminhash_get_mins(x, &mut n);
+            kmerminhash_slice_free(p as *mut u64, n);
+            kmerminhash_free(x);
+        }
+        "ok_md5sum" => {
+            let (x, _) = mh_pair(a, &hs);
+            str_take(kmerminhash_md5sum(x));
+            kmerminhash_free(x);
+        }
+        "ok_is_compatible_false" => {
+            let (x, _) = mh_pair(a, &hs);
+            let (y, _) = mh_pair(P { k: 31, ..a }, &hs);
+            kmerminhash_is_compatible(x, y);
+            kmerminhash_free(x);
+            kmerminhash_free(y);
+        }
+        "ok_isect_union_mismatch" => {
+            let (x, _) = mh_pair(a, &hs);
+            let (y, _) = mh_pair(P { k: 31, ..a }, &hs);
+            let mut u = 0u64;
+            kmerminhash_intersection_union_size(x, y, &mut u);
+            kmerminhash_free(x);
+            kmerminhash_free(y);
+        }
+        "ok_hll_cardinality" => {
+            let h = hll_with_error_rate(0.05, 21);
+            hll_add_hash(h, 12345);
+            hll_cardinality(h);
+            hll_free(h);
+        }
+        "ok_ng_count" => {
+            let g = nodegraph_with_tables(3, 100, 2);
+            nodegraph_count(g, 77);
+            nodegraph_free(g);
+        }
+        "ok_sig_json" => {
+            let s = signature_new();
+            str_take(signature_save_json(s));
+            signature_free(s);
+        }
+        _ => return None,
+    }
+    Some(extra)
+}
+
+fn seqchild() {
+    let stdin = std::io::stdin();
+    let stdout = std::io::stdout();
+    for line in stdin.lock().lines() {
+        let line = line.unwrap();
+        let name = line.trim();
+        let r = unsafe { seq_step(name) };
+        let mut o = stdout.lock();
+        match r {
+            Some(extra) => writeln!(o, "{}code={}", extra, last_code()).unwrap(),
+            None => writeln!(o, "unknown-step").unwrap(),
+        }
+        o.flush().unwrap();
+    }
+}
+
+// ------------------------------------------------------------------------------------------------
+// child: one exported function, in-contract arguments
+// ------------------------------------------------------------------------------------------------
+
+include!("c20_calls.in");
+
+fn child(a: &Args) {
+    let f = a.rest.first().cloned().unwrap_or_default();
+    let cls = a.rest.get(1).cloned().unwrap_or_default();
+    let seed: u64 = a.rest.get(2).and_then(|s| s.parse().ok()).unwrap_or(0);
+    let mut r = Rng::new(seed ^ 0xC20);
+    unsafe {
+        sourmash_init();
+        let cmp = run_call(&f, &cls, &mut r);
+        let cmp = match cmp {
+            Cmp::Unknown => {
+                println!("unknown-scenario");
+                return;
+            }
+            Cmp::Same => "same",
+            Cmp::Diff => "diff",
+            Cmp::None => "-",
+        };
+        let code = last_code();
+        let msg = str_take(sourmash_err_get_last_message());
+        sourmash_err_clear();
+        let code2 = last_code();
+        println!("ret {} code={} msg={} cleared={}", cmp, code, if msg.is_empty() { 0 } else { 1 }, code2);
     }
 }
 
@@ -17,7 +963,10 @@ fn main() {
     let a = args();
     match a.mode.as_str() {
         "gen" => gen(&a),
-        "exec" => exec_loop(|| (), step),
+        "exec" => exec_loop(ExecState::default, exec_step),
+        "child" => child(&a),
+        "seqchild" => seqchild(),
+        "dump" => dump(),
         _ => panic!("mode"),
     }
 }
